@@ -244,7 +244,12 @@ def build_file(c):
             else:
                 k = remaining - eolb
                 if k < 0:
-                    out += b"x" * remaining  # cannot fit an EOL: plain bytes
+                    # cannot fit another line: lengthen the previous one (its EOL stays last, so the next tag starts a line)
+                    e = eol.encode()
+                    if out.endswith(e):
+                        out = out[: -len(e)] + b"x" * remaining + e
+                    else:
+                        out += b"x" * remaining
                 else:
                     out += ("x" * k + eol).encode()
         assert len(out) == n_bytes, (len(out), n_bytes)
@@ -308,11 +313,7 @@ def check_file(ctx, c):
     lic, cop, _con, _ = expected_of(scanned)
     if bad:
         lic, cop = set(), set()
-    case = dict(c)
-    case["head"] = [s["lines"] for s in c["head"]]
-    case["tail"] = [s["lines"] for s in c["tail"]]
-    case["edge_seg"] = c["edge_seg"]["lines"] if c["edge_seg"] else None
-    case["data"] = data
+    case = dict(c, data=data)  # the generated description (enough to rebuild the file) plus the bytes, for the reader
     d = ctx.fresh_dir()
     try:
         if c["where"] == "file":
@@ -334,7 +335,8 @@ def check_file(ctx, c):
         ctx.count(data, nontrivial=any(t["form"] != "bare" for t in alltags) and bool(alltags),
                   labels=[f"eol:{c['eol']!r}", f"edge:{c['edge']}", f"snippet:{snippet}", f"bad:{'scanned' if bad else 'unscanned' if (bad_in or bad_out) else 'none'}",
                           f"where:{c['where']}", f"outside-tags:{len(outside)}"],
-                  sample={k: case[k] for k in ("eol", "edge", "edge_pos", "snippet", "bad", "where", "edge_seg")})
+                  sample={"eol": c["eol"], "edge": c["edge"], "edge_pos": c["edge_pos"], "snippet": c["snippet"], "bad": c["bad"], "where": c["where"],
+                          "edge_line": c["edge_seg"]["lines"] if c["edge_seg"] else None, "size": len(data)})
         if (g_lic, g_cop) != (lic, cop):
             sig = signature_of(scanned, g_lic, g_cop, None)
             ctx.fail(case, f"lint reads licences={sorted(map(str, g_lic))} copyrights={sorted(g_cop)} for {rel}; expected licences={sorted(map(str, lic))} "
@@ -367,7 +369,10 @@ def replay(ctx, case):
         if got != (lic, cop, con):
             ctx.fail(case, f"read {got}, written {(lic, cop, con)}", signature_of(tags, *got))
     else:
-        raise NotImplementedError("file-level replays are stored with their bytes; re-run with the recorded seed")
+        c = {k: v for k, v in case.items() if k != "data"}
+        if c.get("head") and not isinstance(c["head"][0], dict):
+            raise NotImplementedError("replay file written by an older version of this check (no tag description)")
+        check_file(ctx, c)
 
 
 def run(ctx):
